@@ -176,9 +176,9 @@ class LexModel:
         return self.classes[key]
 
     def plain(self, label="name", exemplars=None):
-        key = ("PLAIN", label)
+        ex = exemplars or ["c", "id", "Col", "a_1", "user_name", "ZipCode2"]
+        key = ("PLAIN", label, tuple(ex))
         if key not in self.classes:
-            ex = exemplars or ["c", "id", "Col", "a_1", "user_name", "ZipCode2"]
             for x in ex:
                 if x.upper() in self.all_keys:
                     raise AnalysisError(f"exemplar {x} of PLAIN collides with a keyword table (tables changed)")
@@ -186,7 +186,7 @@ class LexModel:
         return self.classes[key]
 
     def custom(self, label, exemplars, kind="CUSTOM"):
-        key = (kind, label)
+        key = (kind, label, tuple(exemplars))
         if key not in self.classes:
             self.classes[key] = WordClass(label, exemplars, kind)
         return self.classes[key]
